@@ -10,6 +10,7 @@ import (
 	"encoding/json"
 	"fmt"
 	"math/big"
+	"os"
 	"sort"
 	"strings"
 	"time"
@@ -28,6 +29,8 @@ import (
 	"verifharness/env"
 	"verifharness/mon"
 )
+
+var debugOn = os.Getenv("VERIF_C06_DEBUG") != ""
 
 var (
 	e18       = new(big.Int).Exp(big.NewInt(10), big.NewInt(18), nil)
@@ -123,6 +126,7 @@ type monitor struct {
 
 	wit     *Witness
 	nontriv int64
+	aborted bool
 }
 
 // ---------------------------------------------------------------------------
@@ -237,9 +241,16 @@ func (m *monitor) observe(heights []uint64) *obs {
 	}
 	for _, h := range heights {
 		t := new(big.Int)
-		for a, v := range m.adb.GetAllRefund(refundAddr(h)) {
-			if v.Sign() != 0 {
+		// read the escrow account's storage trie directly: GetAllRefund would create
+		// (and cache) the account object, which is a write the node itself does not do here
+		if it := m.adb.DataIterator(refundAddr(h), nil); it != nil {
+			for it.Next() {
+				v := new(big.Int).SetBytes(it.Value)
+				if v.Sign() == 0 {
+					continue
+				}
 				t.Add(t, v)
+				a := common.BytesToAddress(it.Key)
 				if _, ok := m.uni[a]; !ok {
 					// an escrow recipient outside the universe would be paid unobserved
 					m.addUni(a, "escrow-recipient")
@@ -579,6 +590,9 @@ func entryOf(s *TxSpec) string {
 		if s.Class == "evm-stake" {
 			return "evm-stake"
 		}
+		if s.Class == "token" {
+			return "evm-token"
+		}
 		return "evm"
 	}
 	return s.Kind
@@ -667,6 +681,7 @@ func (m *monitor) runBlock(lo, hi int) {
 		return
 	}
 	post := m.observe(heights)
+	m.reopen() // the node executes every block on a fresh AccountDB opened at the parent's root
 	if len(post.bal) != len(pre.bal) {
 		m.fail("C06:universe:leak-to-unwatched-address", fmt.Sprintf("an escrow recipient outside the universe appeared during block %d", m.height))
 		return
@@ -756,35 +771,61 @@ func (m *monitor) runBlock(lo, hi int) {
 	}
 	zero := new(big.Int)
 	neg := func(x *big.Int) *big.Int { return new(big.Int).Neg(x) }
+	if debugOn {
+		for _, b := range bs {
+			st := "-"
+			if b.tx != nil {
+				if rc := status[b.tx.Hash]; rc != nil {
+					st = fmt.Sprintf("status=%d msg=%.80s", rc.Status, rc.Msg)
+				} else if evict[b.tx.Hash] {
+					st = "evicted"
+				}
+			}
+			js, _ := json.Marshal(b.spec)
+			fmt.Printf("DBG seq=%d at=%d %s sd=%d calls=%d %s\n    %s\n    %.300s\n", m.wit.Seq, m.wit.At, b.spec.Kind, m.sdOps, m.callOps, st, desc(), js)
+		}
+	}
 
 	if len(specs) > 1 {
 		// conservation identity over the block
 		lhs := new(big.Int).Add(new(big.Int).Add(dBal, dStake), dEsc)
-		set := []*big.Int{new(big.Int)}
+		// what the block may legitimately destroy: at most the pre-block balance of
+		// every contract a destroy template of the block names plus everything those
+		// templates send to it (inside a block a contract can self-destruct again
+		// and again, so only the bound is exact, not the set of sums)
+		dmax := new(big.Int)
+		seenC := map[common.Address]bool{}
 		for _, b := range bs {
-			ds := []*big.Int{new(big.Int)}
-			if rc := status[b.tx.Hash]; rc != nil && rc.Status == types.ReceiptStatusSuccessful && m.sdOps > 0 {
-				ds = m.destroySet(b, pre)
-			}
-			var next []*big.Int
-			for _, x := range set {
-				for _, y := range ds {
-					next = append(next, new(big.Int).Add(x, y))
+			for _, d := range b.spec.Destroy {
+				var c common.Address
+				switch d.Contract {
+				case "created":
+					c = b.created
+				case "child0":
+					c = crypto.CreateAddress(b.created, 1)
+				default:
+					c = m.resolve(d.Contract)
+				}
+				if !seenC[c] {
+					seenC[c] = true
+					if pb := pre.bal[c]; pb != nil {
+						dmax.Add(dmax, pb)
+					}
+				}
+				for _, v := range d.Values {
+					dmax.Add(dmax, bigDec(v))
 				}
 			}
-			set = next
-			if len(set) > 4096 {
-				break
-			}
+		}
+		if m.sdOps == 0 {
+			dmax.SetInt64(0)
 		}
 		m.r.Count("block_mode_blocks", 1)
 		switch {
 		case lhs.Sign() > 0:
 			m.fail("C06:block:sum-increased", "balances + registered stake + escrow grew over a multi-transaction block; "+desc())
-		case !inSet(neg(lhs), set) && neg(lhs).Cmp(maxOf(set)) > 0:
-			m.fail("C06:block:sum-decreased-unexplained", "balances + registered stake + escrow shrank by more than any self-destruct-to-self of the block explains; "+desc())
-		case !inSet(neg(lhs), set):
-			m.fail("C06:block:delta-not-explained", "balances + registered stake + escrow changed by an amount no combination of self-destructs explains; "+desc())
+		case neg(lhs).Cmp(dmax) > 0:
+			m.fail("C06:block:sum-decreased-unexplained", fmt.Sprintf("balances + registered stake + escrow shrank by more than the self-destructs-to-self of the block can explain (at most %s); %s", dmax, desc()))
 		}
 		m.total.Add(m.total, dBal)
 		return
@@ -904,6 +945,10 @@ func (m *monitor) runBlock(lo, hi int) {
 			sig = "C06:mature:paid-more-than-escrowed"
 		case dBal.Cmp(hi) > 0 && entry == "evm-stake":
 			sig = "C06:evm-stake:" + tmpl + ":sum-increased"
+		case dBal.Cmp(hi) > 0 && entry == "evm-token":
+			sig = "C06:evm-token:value-created-by-call-into-bound-token-contract"
+		case dBal.Cmp(lo) < 0 && entry == "evm-token":
+			sig = "C06:evm-token:value-destroyed-by-call-into-bound-token-contract"
 		case dBal.Cmp(hi) > 0:
 			sig = "C06:" + entry + ":sum-increased"
 		case dBal.Cmp(lo) < 0 && entry == "evm":
@@ -927,6 +972,29 @@ func (m *monitor) runBlock(lo, hi int) {
 	if dBal.Sign() > 0 {
 		m.ceil.Add(m.ceil, dBal)
 	}
+}
+
+// reopen commits the state and continues on a fresh AccountDB at the new root,
+// as the node does between blocks.
+func (m *monitor) reopen() {
+	root, err := m.adb.Commit(true)
+	if err != nil {
+		// the node could not commit this block either (blockchain_add.go rejects it):
+		// nothing after it can be observed on a faithful state
+		m.aborted = true
+		m.r.Count("commit_failed_blocks", 1)
+		if strings.Contains(err.Error(), "can't load code hash c5d2460186f7") {
+			m.r.Count("commit_failed_empty_code_contract", 1)
+		} else {
+			m.r.Note("commit failed: %v", err)
+		}
+		return
+	}
+	adb, err := account.NewAccountDB(root, m.adb.Database())
+	if err != nil {
+		panic(err)
+	}
+	m.adb = adb
 }
 
 // ---------------------------------------------------------------------------
